@@ -51,6 +51,9 @@ func (g *flowGen) node(depth int, handler bool) {
 	lat := 0
 	if g.prop == "C04" || g.prop == "C16" || g.prop == "C02" {
 		discard = r.chance(20)
+	} else if r.chance(25) {
+		// also elsewhere some trees have discarding nodes: a drop is permitted only at a node that is marked itself
+		discard = r.chance(30)
 	}
 
 	disabled := !handler && r.chance(7)
